@@ -111,6 +111,10 @@ def pool_entry(name):
         pick = rng.sample(ids, len(ids) // 10)
         val = {"rand_disabled": {"disable": True}, "rand_unfixable": {"fixable": False}, "rand_warning": {"severity": "Warning"}}[name]
         return "jcl", [{"rule": {rid: dict(val) for rid in pick}}]
+    if name == "ws_rules_off":
+        return "jcl", [{"rule": {"whitespace_001": {"disable": True}, "whitespace_200": {"disable": True}, "comment_010": {"disable": True}}}]
+    if name == "ws_rules_warning":
+        return "jcl", [{"rule": {"whitespace_001": {"severity": "Warning"}, "whitespace_200": {"severity": "Warning"}}}]
     if name.startswith("rc"):
         return random_config(int(name[2:]))
     raise KeyError(name)
